@@ -138,6 +138,10 @@ def validators_alone(ctx: Ctx, sub, n: int) -> Dict[str, int]:
         st.lists(st.integers(), max_size=2), st.dictionaries(st.text(max_size=2), st.integers(), max_size=2),
         st.fractions(), st.decimals(allow_nan=True), st.complex_numbers(allow_nan=False),
         st.sampled_from([2.0, 0.0, 1e10, object, int]),
+        # containers and other shapes an error message has to cope with
+        st.lists(st.integers(), max_size=3).map(tuple), st.sampled_from([(), (1,), (1, 2), ((),), ("%s",), ("a", "b", "c")]),
+        st.frozensets(st.integers(), max_size=2), st.sets(st.text(max_size=2), max_size=2), st.binary(max_size=3).map(bytearray),
+        st.sampled_from([range(3), "%s", "%d %d", "{}", "{0}", "{value}", b"%s", slice(1, 2), Ellipsis, NotImplemented]),
     )
     for fname, (lo, hi) in (("integer_validator", RANGES["integer"]), ("uinteger_validator", RANGES["uinteger"])):
         fn = getattr(V, fname)
